@@ -194,15 +194,26 @@ def main(argv):
     os.makedirs(os.path.join(ROOT, 'evidence'), exist_ok=True)
     exit_code = 0
     n_viol = 0
+    replay_dir = os.environ.get('VERIF_REPLAY_DIR', os.path.join(ROOT, 'replays'))
+    os.makedirs(replay_dir, exist_ok=True)
+    by_ob = {}
     for r in violations:
         name = unit_name(r)
         k = match_known(known, prop, r)
         if k is not None:
-            print(f'KNOWN-FINDING: property={prop} obligation={name} {k.get("text", "")}')
-            known_hits.append(name)
+            tag = (k.get('obligation'), k.get('text'))
+            if tag not in [x[0] for x in known_hits]:
+                print(f'KNOWN-FINDING: property={prop} obligation={k.get("obligation")} {k.get("text", "")}')
+            known_hits.append((tag, name))
             continue
+        by_ob.setdefault(r['oid'], []).append(r)
+    known_hits = [n for _, n in known_hits]
+    for oid, rs in by_ob.items():
         n_viol += 1
-        path = os.path.join('replays', f'{prop}-{zlib.crc32(name.encode()):08x}.json')
+        rs.sort(key=lambda r: r.get('replay') is None)      # a natively reproduced unit first
+        r = rs[0]
+        name = unit_name(r)
+        path = os.path.join(replay_dir, f'{prop}-{zlib.crc32(oid.encode()):08x}.json')
         rep = r.get('replay')
         doc = {'property': prop, 'obligation': r['oid'], 'case': r.get('case'), 'case_idx': r.get('case_idx'),
                'unit': name, 'functions_under_contract': engine.REGISTRY[r['oid']].fuc,
@@ -210,13 +221,17 @@ def main(argv):
                'inputs': (rep or {}).get('inputs'), 'how_found': (rep or {}).get('how'),
                'native_trace': (rep or {}).get('trace'),
                'verifier_output': r.get('refuted') or r.get('undecided'),
-               'reproduced_natively': rep is not None}
-        with open(os.path.join(ROOT, path), 'w') as f:
+               'reproduced_natively': rep is not None,
+               'other_failing_units': [{'unit': unit_name(x), 'claims': ((x.get('replay') or {}).get('failed') or
+                                        [c.get('claim') for c in x.get('refuted', [])])[:4],
+                                        'reproduced_natively': x.get('replay') is not None} for x in rs[1:40]]}
+        with open(path, 'w') as f:
             json.dump(doc, f, indent=1, default=str)
+        shown = os.path.relpath(path, ROOT) if path.startswith(ROOT) else path
         tail = '' if rep is not None else ' no-failing-input-found'
-        claims = ','.join(str(x) for x in doc['failed_claims'][:3])
-        print(f'VIOLATION property={prop} replay={path}{tail}')
-        print(f'  obligation={name} claims={claims}')
+        claims = '; '.join(str(x) for x in doc['failed_claims'][:3])
+        print(f'VIOLATION property={prop} replay={shown}{tail}')
+        print(f'  obligation={name} (+{len(rs) - 1} more failing units) claims: {claims}')
         exit_code = 1
     for r in undecided_lines:
         why = (r['undecided'][0]['reason'] if r.get('undecided') else '?')[:200]
